@@ -127,7 +127,24 @@ def gantt_real(solution, mode):
     return labels, bars, steps
 
 
-def run_case(driver, script, rng, use_z3=True, what=("df", "excel", "gantt", "json", "smt")):
+def overlapping_assignments(solution):
+    """known finding F38: a (cumulative) resource holding two tasks at overlapping times makes the Excel resource view
+    raise OverlappingRange (two merged ranges in one row)"""
+    for r in solution.resources.values():
+        a = [x for x in r.assignments if x[2] - x[1] >= 1]
+        for i in range(len(a)):
+            for j in range(i + 1, len(a)):
+                if a[i][1] < a[j][2] and a[j][1] < a[i][2] and (a[i][2] - a[i][1] >= 2 or a[j][2] - a[j][1] >= 2):
+                    return True
+    return False
+
+
+def beyond_xlsx_columns(solution, limit=16000):
+    ends = [t.end for t in solution.tasks.values()] + [a[2] for r in solution.resources.values() for a in r.assignments]
+    return any(e >= limit for e in ends) or solution.horizon >= limit
+
+
+def run_case(driver, script, rng, use_z3=True, what=("df", "excel", "gantt", "json", "smt"), stats=None):
     cal = rng.choice([(None, None), (None, None), (60, None), (3600, 86400)])
     real = pslib.Real()
     real.run(solch.problem_decl(script, cal))
@@ -142,6 +159,12 @@ def run_case(driver, script, rng, use_z3=True, what=("df", "excel", "gantt", "js
         s = ps.SchedulingSolver(problem=real.problem, max_time=5, **cfg)
         try:
             solution = s.solve()
+        except OverflowError:
+            # an unbounded schedule (no horizon, objective pushing instants up) under a calendar: Python's datetime
+            # cannot represent the dates and build_solution raises - nothing is exported, nothing to compare
+            if stats is not None:
+                stats["out_skipped_dates_out_of_range"] = stats.get("out_skipped_dates_out_of_range", 0) + 1
+            return [], 0
         except Exception as e:  # noqa: BLE001
             return [f"solve raised {type(e).__name__}: {e}"], 0
     diffs = []
@@ -209,7 +232,14 @@ def run_case(driver, script, rng, use_z3=True, what=("df", "excel", "gantt", "js
                     diffs.append(f"json buffer {nm}")
             if js["indicators"] != solution.indicators or js["horizon"] != solution.horizon:
                 diffs.append("json indicators / horizon")
-        if "excel" in what:
+        if "excel" in what and beyond_xlsx_columns(solution):
+            # the xlsx format has 16 384 columns: later instants cannot be written (xlsxwriter ignores them)
+            if stats is not None:
+                stats["out_excel_skipped_beyond_xlsx_columns"] = stats.get("out_excel_skipped_beyond_xlsx_columns", 0) + 1
+        elif "excel" in what and overlapping_assignments(solution):
+            if stats is not None:
+                stats["out_excel_skipped_known_F38_region"] = stats.get("out_excel_skipped_known_F38_region", 0) + 1
+        elif "excel" in what:
             fn = os.path.join(tmp, "x.xlsx")
             try:
                 solution.to_excel_file(fn, colors=rng.random() < 0.5)
